@@ -14,10 +14,10 @@ use std::hash::{BuildHasherDefault, DefaultHasher, Hash, Hasher};
 use std::sync::Arc;
 use vcommon::util::*;
 
-type R<T> = Result<T, String>;
+pub(crate) type R<T> = Result<T, String>;
 const LONG: &str = "a string longer than twelve bytes";
 
-fn es<E: std::fmt::Display>(e: E) -> String {
+pub(crate) fn es<E: std::fmt::Display>(e: E) -> String {
     e.to_string()
 }
 
@@ -46,7 +46,7 @@ fn struct_sv(a: Option<i32>, b: Option<&str>) -> ScalarValue {
 }
 
 /// base type name -> (pool of 4 values with optional physical alternates, typed NULL)
-fn pool(ty: &str) -> R<(Vec<(ScalarValue, Option<ScalarValue>)>, ScalarValue)> {
+pub(crate) fn pool(ty: &str) -> R<(Vec<(ScalarValue, Option<ScalarValue>)>, ScalarValue)> {
     use ScalarValue as S;
     let strs = ["", "a", LONG, "\u{fc}-\u{1f600}"];
     let p = |v: Vec<ScalarValue>| v.into_iter().map(|x| (x, None)).collect::<Vec<_>>();
@@ -72,6 +72,33 @@ fn pool(ty: &str) -> R<(Vec<(ScalarValue, Option<ScalarValue>)>, ScalarValue)> {
             S::TimestampNanosecond(None, None),
         ),
         "Decimal128" => (p(vec![S::Decimal128(Some(0), 10, 2), S::Decimal128(Some(1), 10, 2), S::Decimal128(Some(-700), 10, 2), S::Decimal128(Some(99999999), 10, 2)]), S::Decimal128(None, 10, 2)),
+        "UInt16" => (p(vec![S::UInt16(Some(0)), S::UInt16(Some(1)), S::UInt16(Some(200)), S::UInt16(Some(u16::MAX))]), S::UInt16(None)),
+        "UInt32" => (p(vec![S::UInt32(Some(0)), S::UInt32(Some(1)), S::UInt32(Some(200)), S::UInt32(Some(u32::MAX))]), S::UInt32(None)),
+        "Date64" => (p(vec![S::Date64(Some(0)), S::Date64(Some(86_400_000)), S::Date64(Some(-86_400_000)), S::Date64(Some(1_700_000_000_000))]), S::Date64(None)),
+        "Time32Second" => (p(vec![S::Time32Second(Some(0)), S::Time32Second(Some(1)), S::Time32Second(Some(3600)), S::Time32Second(Some(86399))]), S::Time32Second(None)),
+        "Time64Nanosecond" => (p(vec![S::Time64Nanosecond(Some(0)), S::Time64Nanosecond(Some(1)), S::Time64Nanosecond(Some(3_600_000_000_000)), S::Time64Nanosecond(Some(86_399_999_999_999))]), S::Time64Nanosecond(None)),
+        "TimestampSecond" => (p(vec![S::TimestampSecond(Some(0), None), S::TimestampSecond(Some(1), None), S::TimestampSecond(Some(-7), None), S::TimestampSecond(Some(1_700_000_000), None)]), S::TimestampSecond(None, None)),
+        "TimestampNsTz" => {
+            let tz: Option<Arc<str>> = Some(Arc::from("+01:00"));
+            (p(vec![S::TimestampNanosecond(Some(0), tz.clone()), S::TimestampNanosecond(Some(1), tz.clone()), S::TimestampNanosecond(Some(-7), tz.clone()), S::TimestampNanosecond(Some(1_700_000_000_000_000_000), tz.clone())]),
+             S::TimestampNanosecond(None, tz))
+        }
+        "DurationMillisecond" => (p(vec![S::DurationMillisecond(Some(0)), S::DurationMillisecond(Some(1)), S::DurationMillisecond(Some(-7)), S::DurationMillisecond(Some(i64::MAX))]), S::DurationMillisecond(None)),
+        "IntervalYearMonth" => (p(vec![S::IntervalYearMonth(Some(0)), S::IntervalYearMonth(Some(1)), S::IntervalYearMonth(Some(-7)), S::IntervalYearMonth(Some(1200))]), S::IntervalYearMonth(None)),
+        "IntervalDayTime" => {
+            use arrow::datatypes::IntervalDayTime as D;
+            (p(vec![S::IntervalDayTime(Some(D::new(0, 0))), S::IntervalDayTime(Some(D::new(0, 1))), S::IntervalDayTime(Some(D::new(1, -5))), S::IntervalDayTime(Some(D::new(-3, 7)))]), S::IntervalDayTime(None))
+        }
+        "IntervalMonthDayNano" => {
+            use arrow::datatypes::IntervalMonthDayNano as M;
+            (p(vec![S::IntervalMonthDayNano(Some(M::new(0, 0, 0))), S::IntervalMonthDayNano(Some(M::new(0, 0, 1))), S::IntervalMonthDayNano(Some(M::new(1, -2, 3))), S::IntervalMonthDayNano(Some(M::new(-1, 5, 0)))]), S::IntervalMonthDayNano(None))
+        }
+        "Decimal32" => (p(vec![S::Decimal32(Some(0), 7, 2), S::Decimal32(Some(1), 7, 2), S::Decimal32(Some(-700), 7, 2), S::Decimal32(Some(9999999), 7, 2)]), S::Decimal32(None, 7, 2)),
+        "Decimal64" => (p(vec![S::Decimal64(Some(0), 12, 3), S::Decimal64(Some(1), 12, 3), S::Decimal64(Some(-700), 12, 3), S::Decimal64(Some(999999999999), 12, 3)]), S::Decimal64(None, 12, 3)),
+        "Decimal256" => {
+            use arrow::datatypes::i256;
+            (p(vec![S::Decimal256(Some(i256::from_i128(0)), 40, 2), S::Decimal256(Some(i256::from_i128(1)), 40, 2), S::Decimal256(Some(i256::from_i128(-700)), 40, 2), S::Decimal256(Some(i256::from_i128(i128::MAX)), 40, 2)]), S::Decimal256(None, 40, 2))
+        }
         "Utf8" => (p(strs.iter().map(|s| S::Utf8(Some(s.to_string()))).collect()), S::Utf8(None)),
         "LargeUtf8" => (p(strs.iter().map(|s| S::LargeUtf8(Some(s.to_string()))).collect()), S::LargeUtf8(None)),
         "Utf8View" => (p(strs.iter().map(|s| S::Utf8View(Some(s.to_string()))).collect()), S::Utf8View(None)),
@@ -100,7 +127,7 @@ fn pool(ty: &str) -> R<(Vec<(ScalarValue, Option<ScalarValue>)>, ScalarValue)> {
 }
 
 /// (encoding family, base type)
-fn family(ty: &str) -> (&str, &str) {
+pub(crate) fn family(ty: &str) -> (&str, &str) {
     if let Some(b) = ty.strip_prefix("Dict32:") {
         ("dict32", b)
     } else if let Some(b) = ty.strip_prefix("Dict8:") {
@@ -112,7 +139,7 @@ fn family(ty: &str) -> (&str, &str) {
     }
 }
 
-struct Recipe {
+pub(crate) struct Recipe {
     off: usize,
     tail: usize,
     val: bool,
@@ -126,7 +153,7 @@ struct Recipe {
     cut: usize,
 }
 
-fn recipe(j: &Value) -> Recipe {
+pub(crate) fn recipe(j: &Value) -> Recipe {
     let u = |k: &str| j[k].as_u64().unwrap_or(0) as usize;
     Recipe {
         off: u("off"),
@@ -256,7 +283,7 @@ fn build_ree(base: &str, col: &[usize], r: &Recipe) -> R<ArrayRef> {
     Ok(Arc::new(ra.slice(r.off, col.len())))
 }
 
-fn build(ty: &str, col: &[usize], r: &Recipe) -> R<ArrayRef> {
+pub(crate) fn build(ty: &str, col: &[usize], r: &Recipe) -> R<ArrayRef> {
     match family(ty) {
         ("dict32", b) => build_dict(b, col, r, false),
         ("dict8", b) => build_dict(b, col, r, true),
@@ -272,10 +299,14 @@ fn norm(s: String) -> String {
 
 /// logical token of row i (what Decode yields), rendered by arrow's formatter (handles dictionary / run-end / nested)
 fn tokens(arr: &ArrayRef) -> R<Vec<String>> {
+    tokens_opt(arr, true)
+}
+
+pub(crate) fn tokens_opt(arr: &ArrayRef, normalise: bool) -> R<Vec<String>> {
     let opts = FormatOptions::default().with_null("NULL");
     let f = ArrayFormatter::try_new(arr.as_ref(), &opts).map_err(es)?;
     let ln = arr.logical_nulls();
-    Ok((0..arr.len()).map(|i| if ln.as_ref().is_some_and(|n| n.is_null(i)) { "NULL".to_string() } else { norm(f.value(i).to_string()) }).collect())
+    Ok((0..arr.len()).map(|i| if ln.as_ref().is_some_and(|n| n.is_null(i)) { "NULL".to_string() } else if normalise { norm(f.value(i).to_string()) } else { f.value(i).to_string() }).collect())
 }
 
 fn expected_tokens(ty: &str, col: &[usize]) -> R<Vec<String>> {
@@ -285,7 +316,7 @@ fn expected_tokens(ty: &str, col: &[usize]) -> R<Vec<String>> {
     tokens(&build_plain(base, col, &plain)?)
 }
 
-fn scalar_hash(s: &ScalarValue) -> u64 {
+pub(crate) fn scalar_hash(s: &ScalarValue) -> u64 {
     let mut h = DefaultHasher::new();
     s.hash(&mut h);
     h.finish()
